@@ -17,11 +17,37 @@ def run(tier, seed):
     view = FULL_VIEW - {"dtype", "stats"}
     run_pool(ctx, cfg, ["New", "Merge", "MergeRefused", "MergeFracRefused", "MergeMinFreq", "SetFreqHalf"], view, emb)
     nd_part(ctx, tier)
+    degenerate_part(ctx, tier)
     ctx.assumptions = ["for min_frequency the statement fixes no particular grouping: the spec step is nondeterministic over all "
                        "coarsenings into runs of adjacent bins and the code must produce one of them (refinement)"]
     return ctx.finish("1D: irregular 5-bin, gapped 4-bin, 1-bin and 3-bin histograms x amounts 1..7 x inplace/copy x chains of two merges, "
                       "min_frequency thresholds, refused merges across gaps and fractional amounts; ND: shapes (3,4g), (2,3,2), (4g,3) "
                       "with distinct cell contents x amounts 1..5 x single axis / all axes x inplace/copy")
+
+
+def degenerate_part(ctx, tier):
+    """Histograms without any bin (adaptive, nothing entered yet): Merged of the empty sequence of bins is the empty sequence -
+    merge_bins returns a histogram without bins and without content, and (unless inplace) one of its own."""
+    import physt
+    n = 0
+    for dim in (1, 2):
+        for kw in ({"amount": 1}, {"amount": 2}, {"amount": 3}, {"min_frequency": 1}):
+            for extra in ({}, {"inplace": True}, {"axis": 0}, {"axis": 0, "inplace": True}):
+                h = physt.h1(None, "fixed_width", bin_width=1, adaptive=True) if dim == 1 else physt.h2(None, None, "fixed_width", bin_width=1, adaptive=True)
+                n += 1
+                tag = f"MergeNoBins/d{dim}/{'+'.join(sorted(kw))}/{'+'.join(sorted(extra)) or 'plain'}"
+                ctx.tags[tag] = ctx.tags.get(tag, 0) + 1
+                try:
+                    m = h.merge_bins(**kw, **extra)
+                    ok = m.shape == ((0,) * dim) and float(m.total) == 0.0 and (m is h) == bool(extra.get("inplace"))
+                    got = {"shape": m.shape, "total": float(m.total), "same_object": m is h}
+                except Exception as ex:
+                    ok, got = False, {"raised": f"{type(ex).__name__}: {ex}"}
+                if not ok:
+                    ctx.add_violation({"property": "C10", "spec": "HistND", "action": "Merge", "tag": tag, "fields": ["accepted"],
+                                       "detail": {"expected": {"shape": (0,) * dim, "total": 0.0, "same_object": bool(extra.get("inplace"))}, "observed": got},
+                                       "call": {"dim": dim, "arguments": {**kw, **extra}}})
+    ctx.replayed += n
 
 
 def nd_part(ctx, tier):
